@@ -9,7 +9,11 @@ import (
 
 // Dump prints the SSA of the named functions of a package (debug aid).
 func Dump(pattern string, names []string) {
-	w, err := LoadWorld("/repo", []string{pattern}, "/verif")
+	repo := "/repo"
+	if r := os.Getenv("GOVC_REPO"); r != "" {
+		repo = r
+	}
+	w, err := LoadWorld(repo, []string{pattern}, "/verif")
 	if err != nil {
 		fmt.Println(err)
 		os.Exit(1)
